@@ -45,8 +45,31 @@ func main() {
 	r := report.Start("C04", "exploration")
 	cleanup := ownTempDir()
 	if r.Replay != "" {
-		var c Case
-		r.LoadReplay(&c)
+		var rc struct {
+			Case
+			Steps []Case `json:"steps"`
+			Also  []Case `json:"also"`
+		}
+		r.LoadReplay(&rc)
+		if len(rc.Steps) > 0 {
+			// a history on one instance
+			s := Session{Steps: rc.Steps, Also: rc.Also}
+			v, at, steps := checkSession(&s, nil)
+			fmt.Printf("replay of a session of %d round trips on one server instance and one client.Runtime\n", len(s.Steps))
+			for i, st := range steps {
+				fmt.Printf("  step %d [%s]: outcome=%s class=%q\n", i+1, stepLabel(&s.Steps[i]), st.v.outcome, st.v.class)
+			}
+			if v.class != "" {
+				fmt.Printf("  first failing step %d: class=%q %s\n", at+1, v.class, v.what)
+				r.Fail(v.class, v.what, s)
+			}
+			r.Eval(int64(len(steps)))
+			r.Nontrivial(2)
+			r.Sample(map[string]any{"steps": len(s.Steps)})
+			cleanup()
+			r.Finish("replay of one session", false)
+		}
+		c := rc.Case
 		v := check(c)
 		fmt.Printf("replay %s\n  outcome=%s class=%q %s\n", c.String(), v.outcome, v.class, v.what)
 		if v.class != "" {
@@ -131,6 +154,79 @@ func main() {
 		duplicates += dups
 		mu.Unlock()
 	})
+	// ---- histories: sequences of round trips on ONE server instance and ONE client.Runtime ----
+	seqInfo := map[string]any{}
+	var seqSessions, seqSteps int64
+	for _, w := range worlds(r.Thorough()) {
+		w := w
+		n := len(w.alphabet)
+		type base struct {
+			v   verdict
+			obs string
+		}
+		bases := make([]base, n)
+		enum.Parallel(n, r.OutOfTime, func(i int) {
+			s := w.session([]int{i})
+			v, obs := s.alone(0)
+			bases[i] = base{v, obs}
+			r.Eval(1)
+			if v.nontrivial {
+				r.Nontrivial(1)
+			}
+			r.Outcome(v.outcome, 1)
+			if v.class != "" {
+				r.Fail(v.class, v.what, s.Steps[0])
+			}
+		})
+		if r.Cut() {
+			break
+		}
+		sess := sessionsOf(&w, r.Thorough())
+		rot := int(uint64(r.Seed) % uint64(len(sess)))
+		enum.Parallel(len(sess), r.OutOfTime, func(k int) {
+			idx := sess[(k+rot)%len(sess)]
+			s := w.session(idx)
+			v, at, steps := checkSession(&s, func(i int) (verdict, string) { return bases[idx[i]].v, bases[idx[i]].obs })
+			var nt int64
+			outcomes := map[string]int64{}
+			for i, st := range steps {
+				if st.v.nontrivial && (at < 0 || i < at) {
+					nt++
+				}
+				if at < 0 || i < at {
+					outcomes["in-sequence-"+st.v.outcome]++
+				}
+			}
+			if v.class != "" {
+				outcomes[v.outcome]++
+				s.Steps = s.Steps[:at+1]
+				r.Fail(v.class, v.what, s)
+			}
+			r.Eval(int64(len(steps)))
+			r.Nontrivial(nt)
+			for o, c := range outcomes {
+				r.Outcome(o, c)
+			}
+			mu.Lock()
+			seqSessions++
+			seqSteps += int64(len(steps))
+			perFamily["sequences-on-one-instance"] += int64(len(steps))
+			perFamily["sequences-baseline-alone"] += 0
+			mu.Unlock()
+			if k%97 == int(uint64(r.Seed)%97) && len(idx) <= 3 && r.WantSample() {
+				var labels []string
+				for i := range s.Steps {
+					labels = append(labels, stepLabel(&s.Steps[i]))
+				}
+				r.Sample(map[string]any{"family": "sequences-on-one-instance", "world": w.name, "steps": labels, "class": v.class})
+			}
+		})
+		perFamily["sequences-baseline-alone"] += int64(n)
+		seqInfo[w.name] = map[string]any{"description": w.describe(), "alphabet": n, "core": len(w.core), "sessions": len(sess)}
+	}
+	r.Set("sequence_worlds", seqInfo)
+	r.Set("sequence_sessions", seqSessions)
+	r.Set("sequence_round_trips", seqSteps)
 	fams := make([]string, 0, len(perFamily))
 	for k := range perFamily {
 		fams = append(fams, k)
@@ -155,5 +251,5 @@ func main() {
 		"the oracle never depends on Go map iteration order inside the client (multipart part order, path substitution order) - it compares decoded values only",
 	)
 	r.Set("axes_per_family", familyAxes)
-	r.Finish("every case of every family listed in cases_per_family (each family is the full product of the axes stated in axes_per_family; a case = one description + supplied values + handler outcome, executed as one full round trip client.Runtime.Submit -> wire -> Context.APIHandler -> wire -> response reader on the real code = one evaluation); non-trivial = the case is inside the guarantee and the operation's handler was invoked; distinct: a digest of every executed case is kept and a case met a second time is skipped, not counted (duplicate_cases_skipped)", true)
+	r.Finish("every case of every family listed in cases_per_family (each family is the full product of the axes stated in axes_per_family; a case = one description + supplied values + handler outcome, executed as one full round trip client.Runtime.Submit -> wire -> Context.APIHandler -> wire -> response reader on the real code = one evaluation); plus the histories of family sequences-on-one-instance: every ordered pair (thorough: also every ordered triple of the core steps, and the alphabet forward then backward) of a stated alphabet of round trips executed on ONE server instance and ONE client.Runtime, each step judged by the same identity oracle and its observation compared with that of the same step alone on a fresh instance (one evaluation per round trip); non-trivial = the case is inside the guarantee and the operation's handler was invoked; distinct: a digest of every executed case is kept and a case met a second time is skipped, not counted (duplicate_cases_skipped)", true)
 }
